@@ -221,9 +221,9 @@ let lane_paged args =
   let (args, stop) = (match args with [a; b; c; k] -> ([a; b; c], Some (int_of_string k)) | _ -> (args, None)) in
   match args with
   | [size; uc; pages] ->
-      let chained = String.contains uc 'E' in
+      let chained = String.contains uc 'E' || String.contains uc 'R' in      (* R: [PagedResults, EntriesOnly] - observably the same composition *)
       let user = (if String.contains uc 'P' then [CPaged (n_of_int 5, [])] else []) @
-                 List.init (int_of_string (String.concat "" (List.filter (fun x -> x <> "P" && x <> "E") (List.map (String.make 1) (List.of_seq (String.to_seq (String.sub uc 1 (String.length uc - 1)))))))) (fun k -> COther (nat_of_int k)) in
+                 List.init (int_of_string (String.concat "" (List.filter (fun x -> x <> "P" && x <> "E" && x <> "R") (List.map (String.make 1) (List.of_seq (String.to_seq (String.sub uc 1 (String.length uc - 1)))))))) (fun k -> COther (nat_of_int k)) in
       let parse_page (p : string) : page =
         let parts = String.split_on_char ',' p in
         (* items after "w" are withheld by the scripted server: the caller never gets that far *)
